@@ -519,3 +519,131 @@ func init() {
 		},
 	}))
 }
+
+// fleet-runonce: an instance started with only_once must end by itself after
+// it has merged the newest snapshot of every instance present at start-up,
+// not earlier, despite transient List/Load failures.
+func init() {
+	RegisterProfile(&Profile{Name: "fleet-runonce", Property: "C16", Run: func(env *RunEnv) {
+		t := env.Tape
+		cfg := swarmBase(t)
+		cfg.N = 3 + t.Choose("cfg-n10", 2)
+		swarmFaults(t, &cfg)
+		cfg.Faults.StoreErr, cfg.Faults.StoreErrAfter = 0, 0
+		cfg.Steps = 80 + t.Choose("cfg-steps10", 150)
+		f, err := NewFleet(env.Sim, env.Root, cfg)
+		if err != nil {
+			env.Res.HarnessErr = err.Error()
+			return
+		}
+		defer f.Close()
+		ro := f.Nodes[len(f.Nodes)-1]
+		ro.Conf.OnlyOnce = true
+		f.Excluded[ro] = true
+		env.Sim.Logf("cfg fleet-runonce n=%d native=%v run-once=%s faults=%+v", cfg.N, cfg.Native, ro.Name, cfg.Faults)
+		f.RunWorkload()
+		viol := func(o, sig, msg string) { f.Violate(Violation{"C16", o, sig, msg}) }
+		if f.Failed() {
+			return
+		}
+		// let the others publish what they have, then start the run-once
+		// instance while List/Load faults are still active
+		f.Bucket.Cfg.StoreErr, f.Bucket.Cfg.StoreErrAfter = 0, 0
+		f.Drain(cfg.DrainTime() / 2)
+		f.Bucket.Cfg = cfg.Faults
+		f.Bucket.Cfg.StoreErr, f.Bucket.Cfg.StoreErrAfter = 0, 0
+		cache := map[string]Logical{}
+		atStart := f.NewestDecodableByInstance(cache)
+		want := Logical{}
+		for _, name := range atStart {
+			for dbi, m := range cache[name] {
+				if want[dbi] == nil {
+					want[dbi] = map[string]Version{}
+				}
+				for k, v := range m {
+					if cur, ok := want[dbi][k]; !ok || v.TS > cur.TS {
+						want[dbi][k] = v
+					}
+				}
+			}
+		}
+		if err := ro.Start(); err != nil {
+			panic(err)
+		}
+		f.Sim.Logf("-- run-once instance %s started; newest at start: %v", ro.Name, atStart)
+		faultEnd := f.Sim.Now() + time.Duration(t.Choose("ro-fault-s", 20))*time.Second
+		bound := 10*(cfg.Poll+cfg.StPoll) + 6*cfg.Retry + 10*time.Second
+		var deadline time.Duration
+		returned := false
+		for i := 0; i < 6000; i++ {
+			parked := f.Sim.Quiesce()
+			if ret, err := ro.SyncReturned(ro.Inc); ret {
+				returned = true
+				if err != nil {
+					viol("run-once-ends", "run-once-error", fmt.Sprintf("run-once instance %s: Sync returned an error: %v", ro.Name, err))
+				}
+				break
+			}
+			if f.Bucket.Cfg.Active && f.Sim.Now() >= faultEnd {
+				f.Bucket.Cfg.Active = false
+				f.Bucket.Partition = map[string]time.Duration{}
+				deadline = f.Sim.Now() + bound
+				f.Sim.Logf("-- faults off")
+			}
+			if deadline > 0 && f.Sim.Now() > deadline {
+				break
+			}
+			if len(parked) == 0 {
+				f.Sim.Idle(time.Second)
+				continue
+			}
+			f.Sim.Sleep(time.Duration(1+t.Choose("dus", 500)) * time.Microsecond)
+			f.Sim.Release(parked[t.Choose("run", len(parked))])
+		}
+		f.Sim.Quiesce()
+		if !returned && !f.Failed() {
+			viol("run-once-ends", "run-once-did-not-end", fmt.Sprintf("run-once instance %s did not end within %s after the faults stopped", ro.Name, bound))
+		}
+		if returned && !f.Failed() {
+			// not earlier: every instance present at start-up was merged
+			for _, inst := range sortedKeys(atStart) {
+				if inst == ro.Name {
+					continue
+				}
+				still := false
+				for _, name := range f.Bucket.Names() {
+					if pn, ok := ParseSnapName(name); ok && pn.Instance == inst {
+						still = true
+					}
+				}
+				merged := false
+				for _, ev := range ro.LoadedEvents() {
+					if pn, ok := ParseSnapName(ev.Name); ok && pn.Instance == inst && ev.Name >= atStart[inst] {
+						merged = true
+					}
+				}
+				if still && !merged {
+					viol("run-once-complete", "ended-before-merging-all", fmt.Sprintf("run-once instance %s ended without having merged the newest snapshot of %s (%s)", ro.Name, inst, atStart[inst]))
+					break
+				}
+			}
+			st, _ := DumpEnv(ro.Env)
+			got, _ := st.LogicalContent(ro.Native)
+			for _, dbi := range sortedKeys(want) {
+				for _, k := range sortedKeys(want[dbi]) {
+					if f.Failed() {
+						break
+					}
+					g, ok := got[dbi][k]
+					if !ok || g.TS < want[dbi][k].TS {
+						viol("run-once-complete", "content-missing", fmt.Sprintf("run-once instance %s ended but holds %v (present=%v) for %s/%q; the snapshots present at its start held %s", ro.Name, g, ok, dbi, k, want[dbi][k]))
+					}
+				}
+			}
+		}
+		env.Res.Violations = f.Violations
+		env.Res.SimMs = int64(f.Sim.Now() / time.Millisecond)
+		env.Res.Counts = map[string]int{"instances_at_start": len(atStart), "ro_loaded": len(ro.LoadedEvents())}
+		env.Res.Nontrivial = returned && len(atStart) >= 2
+	}})
+}
